@@ -15,14 +15,15 @@ variable {σ : Type}
 
 /-! ### `write` -/
 
-def WritePost (c : Cfg) (p : ByteArray) (w : WSt σ) (n : Nat) : WSt σ × Nat × Option Err → Prop
-  | (w', n', none) => Inv c w' ∧ w'.written < Gen.lzma_maxUncompressed ∧ n' = p.size ∧
+def WritePost (c : Cfg) (I : σ → ByteArray → ByteArray → Prop) (p : ByteArray) (w : WSt σ) (n : Nat) :
+    WSt σ × Nat × Option Err → Prop
+  | (w', n', none) => InvI c I w' ∧ w'.written < Gen.lzma_maxUncompressed ∧ n' = p.size ∧
       w'.hist ++ w'.look = w.hist ++ w.look ++ p.extract n p.size
   | (_, _, some e) => e = .limit ∧ ¬ 25 ≤ Gen.lzma_opLenMargin
 
-theorem WritePost.trans {c : Cfg} {p : ByteArray} {w w1 : WSt σ} {n n1 : Nat} {r : WSt σ × Nat × Option Err}
+theorem WritePost.trans {c : Cfg} {I : σ → ByteArray → ByteArray → Prop} {p : ByteArray} {w w1 : WSt σ} {n n1 : Nat} {r : WSt σ × Nat × Option Err}
     (hd : w1.hist ++ w1.look = w.hist ++ w.look ++ p.extract n n1) (hn : n ≤ n1) (hn1 : n1 ≤ p.size)
-    (h : WritePost c p w1 n1 r) : WritePost c p w n r := by
+    (h : WritePost c I p w1 n1 r) : WritePost c I p w n r := by
   obtain ⟨w', n', e⟩ := r
   cases e with
   | none =>
@@ -32,9 +33,10 @@ theorem WritePost.trans {c : Cfg} {p : ByteArray} {w w1 : WSt σ} {n n1 : Nat} {
       Nat.max_eq_right hn1]
   | some e => exact h
 
-theorem write_spec (c : Cfg) (hc : CfgOk' c) (M : Matcher σ) (hM : MatcherOk' c M) (p : ByteArray) :
-    ∀ (fuel : Nat) (w : WSt σ) (n : Nat), Inv c w → w.written < Gen.lzma_maxUncompressed → n ≤ p.size →
-      2 * (p.size - n) + w.written + 1 ≤ fuel → WritePost c p w n (write c M p fuel w n) := by
+theorem write_spec (c : Cfg) (hc : CfgOk' c) (M : Matcher σ) (I : σ → ByteArray → ByteArray → Prop)
+    (hI : MatcherInv' c M I) (p : ByteArray) :
+    ∀ (fuel : Nat) (w : WSt σ) (n : Nat), InvI c I w → w.written < Gen.lzma_maxUncompressed → n ≤ p.size →
+      2 * (p.size - n) + w.written + 1 ≤ fuel → WritePost c I p w n (write c M p fuel w n) := by
   intro fuel
   induction fuel with
   | zero => intro w n _ _ _ h; omega
@@ -55,7 +57,7 @@ theorem write_spec (c : Cfg) (hc : CfgOk' c) (M : Matcher σ) (hM : MatcherOk' c
         rw [← hq, ByteArray.extract_extract]
         congr 1
         split <;> omega
-      have hew := encWrite_spec c hc M hM q (q.size + 2) w 0 hi (Nat.zero_le _) (by omega)
+      have hew := encWrite_spec c hc M I hI q (q.size + 2) w 0 hi (Nat.zero_le _) (by omega)
         (by split <;> omega)
       rcases hr : encWrite c M q (q.size + 2) w 0 with ⟨res, k⟩
       rw [hr] at hew
@@ -67,7 +69,7 @@ theorem write_spec (c : Cfg) (hc : CfgOk' c) (M : Matcher σ) (hM : MatcherOk' c
         simp only []
         have hw' := a2.written hi.start
         rw [ByteArray.size_extract] at hw'
-        have hfl := flushChunk_spec c hc M hM w' a1
+        have hfl := flushChunk_spec c hc M I hI w' a1
         have hd' := a2.data
         rw [hqe k a4] at hd'
         cases hfc : flushChunk c M w' with
@@ -89,7 +91,7 @@ theorem write_spec (c : Cfg) (hc : CfgOk' c) (M : Matcher σ) (hM : MatcherOk' c
         rw [hqe k (by omega)] at hd'
         by_cases hkm : k = m
         · rw [if_pos hkm]
-          have hfl := flushChunk_spec c hc M hM w' a1
+          have hfl := flushChunk_spec c hc M I hI w' a1
           cases hfc : flushChunk c M w' with
           | error e => rw [hfc] at hfl; exact hfl
           | ok w'' =>
@@ -110,12 +112,13 @@ theorem write_spec (c : Cfg) (hc : CfgOk' c) (M : Matcher σ) (hM : MatcherOk' c
 
 /-! ### `flushLoop` -/
 
-def FLPost (c : Cfg) (w : WSt σ) : Except Err (WSt σ) → Prop
-  | .ok w' => Inv c w' ∧ w'.written = 0 ∧ w'.hist ++ w'.look = w.hist ++ w.look
+def FLPost (c : Cfg) (I : σ → ByteArray → ByteArray → Prop) (w : WSt σ) : Except Err (WSt σ) → Prop
+  | .ok w' => InvI c I w' ∧ w'.written = 0 ∧ w'.hist ++ w'.look = w.hist ++ w.look
   | .error e => e = .limit ∧ ¬ 25 ≤ Gen.lzma_opLenMargin
 
-theorem flushLoop_spec (c : Cfg) (hc : CfgOk' c) (M : Matcher σ) (hM : MatcherOk' c M) :
-    ∀ (fuel : Nat) (w : WSt σ), Inv c w → w.written < fuel → FLPost c w (flushLoop c M fuel w) := by
+theorem flushLoop_spec (c : Cfg) (hc : CfgOk' c) (M : Matcher σ) (I : σ → ByteArray → ByteArray → Prop)
+    (hI : MatcherInv' c M I) :
+    ∀ (fuel : Nat) (w : WSt σ), InvI c I w → w.written < fuel → FLPost c I w (flushLoop c M fuel w) := by
   intro fuel
   induction fuel with
   | zero => intro w _ h; omega
@@ -124,7 +127,7 @@ theorem flushLoop_spec (c : Cfg) (hc : CfgOk' c) (M : Matcher σ) (hM : MatcherO
     unfold flushLoop
     by_cases hw : w.written > 0
     · rw [if_pos hw]
-      have hfl := flushChunk_spec c hc M hM w hi
+      have hfl := flushChunk_spec c hc M I hI w hi
       cases hfc : flushChunk c M w with
       | error e => rw [hfc] at hfl; exact hfl
       | ok w' =>
@@ -152,8 +155,8 @@ theorem ErrOk.limit {e : Err} (h : e = .limit ∧ ¬ 25 ≤ Gen.lzma_opLenMargin
   ⟨Or.inr (by rw [h.1]), fun hm => absurd hm h.2⟩
 
 /-- a state between two calls, with the data accepted so far -/
-structure RunInv (c : Cfg) (w : WSt σ) (d : ByteArray) : Prop where
-  inv : Inv c w
+structure RunInv (c : Cfg) (I : σ → ByteArray → ByteArray → Prop) (w : WSt σ) (d : ByteArray) : Prop where
+  inv : InvI c I w
   wr : w.written < Gen.lzma_maxUncompressed
   data : w.hist ++ w.look = d
 
@@ -162,13 +165,14 @@ theorem Inv.notClosed {c : Cfg} {w : WSt σ} (hi : Inv c w) : w.closed = false :
   unfold WSt.closed
   rcases hst with ⟨h, _⟩ | ⟨h, _⟩ | ⟨h | h, _⟩ <;> rw [h] <;> decide
 
-theorem step_write (c : Cfg) (hc : CfgOk' c) (M : Matcher σ) (hM : MatcherOk' c M) (w : WSt σ) (d p : ByteArray)
-    (h : RunInv c w d) :
+theorem step_write (c : Cfg) (hc : CfgOk' c) (M : Matcher σ) (I : σ → ByteArray → ByteArray → Prop)
+    (hI : MatcherInv' c M I) (w : WSt σ) (d p : ByteArray)
+    (h : RunInv c I w d) :
     ErrOk (step c M w (.write p)).2.err ∧
-    ((step c M w (.write p)).2.err = none → RunInv c (step c M w (.write p)).1 (d ++ p)) := by
-  have hws := write_spec c hc M hM p (2 * p.size + w.written + 2) w 0 h.inv h.wr (Nat.zero_le _) (by omega)
+    ((step c M w (.write p)).2.err = none → RunInv c I (step c M w (.write p)).1 (d ++ p)) := by
+  have hws := write_spec c hc M I hI p (2 * p.size + w.written + 2) w 0 h.inv h.wr (Nat.zero_le _) (by omega)
   unfold step
-  simp only [h.inv.notClosed, Bool.false_eq_true, if_false]
+  simp only [h.inv.toInv.notClosed, Bool.false_eq_true, if_false]
   rcases hr : write c M p (2 * p.size + w.written + 2) w 0 with ⟨w', n', e⟩
   rw [hr] at hws
   cases e with
@@ -180,14 +184,15 @@ theorem step_write (c : Cfg) (hc : CfgOk' c) (M : Matcher σ) (hM : MatcherOk' c
   | some e =>
     exact ⟨ErrOk.limit hws, fun h => by cases h⟩
 
-theorem step_flush (c : Cfg) (hc : CfgOk' c) (M : Matcher σ) (hM : MatcherOk' c M) (w : WSt σ) (d : ByteArray)
-    (h : RunInv c w d) :
+theorem step_flush (c : Cfg) (hc : CfgOk' c) (M : Matcher σ) (I : σ → ByteArray → ByteArray → Prop)
+    (hI : MatcherInv' c M I) (w : WSt σ) (d : ByteArray)
+    (h : RunInv c I w d) :
     ErrOk (step c M w .flush).2.err ∧
     ((step c M w .flush).2.err = none →
-      RunInv c (step c M w .flush).1 d ∧ (step c M w .flush).1.written = 0) := by
-  have hfl := flushLoop_spec c hc M hM (w.written + 1) w h.inv (by omega)
+      RunInv c I (step c M w .flush).1 d ∧ (step c M w .flush).1.written = 0) := by
+  have hfl := flushLoop_spec c hc M I hI (w.written + 1) w h.inv (by omega)
   unfold step
-  simp only [h.inv.notClosed, Bool.false_eq_true, if_false]
+  simp only [h.inv.toInv.notClosed, Bool.false_eq_true, if_false]
   cases hr : flushLoop c M (w.written + 1) w with
   | error e =>
     rw [hr] at hfl
@@ -198,16 +203,17 @@ theorem step_flush (c : Cfg) (hc : CfgOk' c) (M : Matcher σ) (hM : MatcherOk' c
     have hmax : 0 < Gen.lzma_maxUncompressed := by decide
     exact ⟨ErrOk.none, fun _ => ⟨⟨a1, by show w'.written < _; omega, by show w'.hist ++ w'.look = d; rw [a3, h.data]⟩, a2⟩⟩
 
-theorem step_close (c : Cfg) (hc : CfgOk' c) (M : Matcher σ) (hM : MatcherOk' c M) (w : WSt σ) (d : ByteArray)
-    (h : RunInv c w d) :
+theorem step_close (c : Cfg) (hc : CfgOk' c) (M : Matcher σ) (I : σ → ByteArray → ByteArray → Prop)
+    (hI : MatcherInv' c M I) (w : WSt σ) (d : ByteArray)
+    (h : RunInv c I w d) :
     ErrOk (step c M w .close).2.err ∧
     ((step c M w .close).2.err = none →
-      ∃ w', Inv c w' ∧ w'.written = 0 ∧ w'.hist ++ w'.look = d ∧
+      ∃ w', InvI c I w' ∧ w'.written = 0 ∧ w'.hist ++ w'.look = d ∧
         (step c M w .close).1 = { w' with out := w'.out.push 0, cstate := Gen.lzma_stateStop,
                                            chunks := w'.chunks.push { kind := .eos, usize := 0 } }) := by
-  have hfl := flushLoop_spec c hc M hM (w.written + 1) w h.inv (by omega)
+  have hfl := flushLoop_spec c hc M I hI (w.written + 1) w h.inv (by omega)
   unfold step
-  simp only [h.inv.notClosed, Bool.false_eq_true, if_false]
+  simp only [h.inv.toInv.notClosed, Bool.false_eq_true, if_false]
   cases hr : flushLoop c M (w.written + 1) w with
   | error e =>
     rw [hr] at hfl
@@ -219,10 +225,11 @@ theorem step_close (c : Cfg) (hc : CfgOk' c) (M : Matcher σ) (hM : MatcherOk' c
 
 /-! ### the start state -/
 
-theorem init_inv (c : Cfg) (m0 : σ) : RunInv c (init c m0) ByteArray.empty := by
+theorem init_inv (c : Cfg) (I : σ → ByteArray → ByteArray → Prop) (m0 : σ) (h0 : I m0 ByteArray.empty ByteArray.empty) :
+    RunInv c I (init c m0) ByteArray.empty := by
   have hE : EE c (init c m0) = e0 c.dictCap := rfl
-  refine ⟨⟨⟨.run true true, fun _ => rfl, Or.inl ⟨rfl, rfl, rfl, rfl, rfl⟩⟩, rfl, rfl, rfl, rfl, OpsOk.nil _ _, rfl,
-    init_rest, initTable_ok _ _, initTable_ok _ _, ?_, Nat.le_refl _, ?_, ?_, ?_, fun _ => ?_⟩, ?_, rfl⟩
+  refine ⟨⟨⟨⟨.run true true, fun _ => rfl, Or.inl ⟨rfl, rfl, rfl, rfl, rfl⟩⟩, rfl, rfl, rfl, rfl, OpsOk.nil _ _, rfl,
+    init_rest, initTable_ok _ _, initTable_ok _ _, ?_, Nat.le_refl _, ?_, ?_, ?_, fun _ => ?_⟩, h0⟩, ?_, rfl⟩
   · show 0 + min 0 c.dictCap ≤ ringCap c
     omega
   · show (0 : Nat) - 0 + 0 ≤ Gen.lzma_maxUncompressed
